@@ -452,12 +452,40 @@ class Irr(object):
 IRR = Irr()
 
 
+CAP2 = 128
+
+
 def capd(F, d):
-    """characteristic 2: keep q^d <= 64 so that equal-degree splitting ends within the supplied draws"""
+    """characteristic 2: equal-degree splitting needs about q^d / (2k) random polynomials (the (q^d-1)/2 power is useless for p = 2):
+    the general generators keep q^d <= CAP2 so that their streams suffice; gen_char2 drives the larger sizes with streams to match"""
     if F.p == 2:
-        while d > 1 and F.q ** d > 64:
+        while d > 1 and F.q ** d > CAP2:
             d -= 1
     return d
+
+
+def gen_char2(rng, add, big, fields, gfq):
+    """characteristic 2 at larger sizes (deterministic sizes): products of two / three irreducibles of one degree d with q^d up to 1024
+    (quick) / 16384 (thorough), streams long enough for the expected q^d / k attempts of deg G draws each"""
+    sizes = {2: ((8, 10), (12, 14)), 4: ((4, 5), (6, 7)), 8: ((3,), (4,)), 16: ((2,), (3,))}
+    for F in fields + gfq:
+        if F.p != 2 or F.q not in sizes:
+            continue
+        for d in sizes[F.q][0] + (sizes[F.q][1] if big else ()):
+            for k in (2, 3):
+                fs = []
+                while len(fs) < k:
+                    f = IRR.get(rng, F, d)
+                    if f not in fs:
+                        fs.append(f)
+                P = product(F, [(f, 1) for f in fs])
+                n = 5 * d * F.q ** d + 2000
+                meta = {"facs": [(f, 1) for f in fs], "d": d, "nomodel": F.q ** d > 1024}
+                kl = "characteristic 2, %d factors of degree %d (q^d = %d)" % (k, d, F.q ** d)
+                add(("cz", "cz.mod", "cz.factor")[(d + k) % 3], F, stream(rng, n // 6, F), [P], meta, "multiplicities<char; " + kl)
+                if k == 2:
+                    add(("split", "split.mod")[d % 2], F, stream(rng, n // 6, F), [P, str(d)], meta, kl)
+                    add(("ddf", "ddf.mod", "ddf.list")[d % 3], F, stream(rng, n // 6, F), [P], meta, kl)
 
 
 def product(F, facs):
@@ -485,7 +513,8 @@ MODEL_OP = {"irr": "irr", "irr.mod": "irr", "irr2": "irr2", "irr2.mod": "irr2", 
             "split1": "split1", "split1.mod": "split1", "cz": "cz", "cz.mod": "cz", "cz.factor": "cz",
             "isproot": "isproot", "order": "order", "randirr": "randirr", "creux": "creux", "ixe": "ixe", "ixe2": "ixe2",
             "giveproot": "giveproot", "giverandproot": "giverandproot", "randproot": "randproot",
-            "diff": "diff", "diff.in": "diff", "powmod": "powmod", "powmod.in": "powmod", "gcd": "gcd"}
+            "diff": "diff", "diff.in": "diff", "powmod": "powmod", "powmod.in": "powmod", "gcd": "gcd",
+            "factor1": "factor1", "factor1.mod": "factor1"}
 SITE = {"irr": "Poly1FactorDom::is_irreducible", "irr2": "Poly1FactorDom::is_irreducible2", "sqrfree": "Poly1Dom::sqrfree",
         "ddf": "Poly1FactorDom::DistinctDegreeFactor", "split": "Poly1FactorDom::SplitFactor(container)",
         "split1": "Poly1FactorDom::SplitFactor(single)", "cz": "Poly1FactorDom::CZfactor",
@@ -494,7 +523,7 @@ SITE = {"irr": "Poly1FactorDom::is_irreducible", "irr2": "Poly1FactorDom::is_irr
         "ixe": "Poly1FactorDom::ixe_irreducible", "ixe2": "Poly1FactorDom::ixe_irreducible2",
         "giveproot": "Poly1FactorDom::give_prim_root", "giverandproot": "Poly1FactorDom::give_random_prim_root",
         "randproot": "Poly1FactorDom::random_prim_root", "cyclo": "Poly1Dom::cyclotomic", "pcomp": "Poly1Dom::power_compose",
-        "diff": "Poly1Dom::diff", "powmod": "Poly1Dom::powmod", "gcd": "Poly1Dom::gcd", "fieldinfo": "field parameters"}
+        "factor1": "Poly1FactorDom::factor(Rep&,const Rep&)", "diff": "Poly1Dom::diff", "powmod": "Poly1Dom::powmod", "gcd": "Poly1Dom::gcd", "fieldinfo": "field parameters"}
 
 
 class Case(object):
@@ -531,6 +560,9 @@ def gen_cases(rng, tier, fields, gfq, bigG=(), bnd=()):
 
     def add(op, F, st, args, meta=None, klass=""):
         C.append(Case(op, F, st, [a if isinstance(a, str) else pstr(a) for a in args], meta, klass))
+        if op.split(".")[0] == "cz" and len(st) <= 6000:      # the single-factor form on the same input (both overloads in rotation)
+            m1 = dict((k, v) for k, v in (meta or {}).items() if k in ("nomodel",))
+            C.append(Case(("factor1", "factor1.mod")[len(C) % 2], F, st[:600], C[-1].args, m1, klass))
 
     # ---- 1. irreducibility tests: every polynomial of small degree (exhaustive), then structured larger ones
     exh = {2: 7 if not big else 11, 3: 4 if not big else 6, 5: 3 if not big else 4, 7: 2 if not big else 3,
@@ -762,6 +794,8 @@ def gen_cases(rng, tier, fields, gfq, bigG=(), bnd=()):
     gen_helpers(rng, add, big, fields, gfq)
     # ---- 8. sparse and structured inputs for every entry point (deterministic)
     gen_structured(rng, add, big, fields, gfq)
+    # ---- 8b. characteristic 2 at the sizes the splitting can still reach (see gen_char2)
+    gen_char2(rng, add, big, fields, gfq)
     # ---- 9. fields whose q, q^n, (q^n-1)/2, (q^n-1)/l land on both sides of 2^31, 2^32, 2^63, 2^64 (2^128), through every
     #         ring type the implementation is instantiated with (deterministic list, see boundary_fields)
     gen_boundary(rng, add, big, bnd)
@@ -1094,9 +1128,12 @@ def gen_boundary(rng, add, big, bnd):
             add("diff", F, [], [P], nm, kl)
             add("gcd", F, [], [P, P2], nm, kl)
             # orders and primitive roots modulo M
-            for ek, A in els:
-                add("isproot", F, [], [A, M], nmo, kl + ": " + ek)
-                add("order", F, [], [A, M], nmo, kl + ": " + ek)
+            for ei, (ek, A) in enumerate(els):
+                # the model's trial division cannot factor q^k - 1: its factor list is an input (Model3.is_prim_root_L / order_L); the
+                # extracted inverse is unary in q, so only Modular<int32_t> fields, and a sample when q is large
+                mo = dict(nmo, L=pf) if (tag == "" and (q < 2000 or ei % 4 == 0)) else nmo
+                add("isproot", F, [], [A, M], mo, kl + ": " + ek)
+                add("order", F, [], [A, M], mo, kl + ": " + ek)
             add("giveproot", F, stream(rng, 300), [M], nmo, kl)
             add("giverandproot", F, stream(rng, 300), [M], nmo, kl)
             add("randproot", F, stream(rng, 900), [str(k)], dict(nmo, n=k), kl)
@@ -1219,6 +1256,15 @@ def verdict(c, payload):
         if order_spec(F, R, P) != F.q ** n - 1:
             return ("order q^n - 1", "returned element is not a primitive root")
         return None
+    if b == "factor1":
+        P = ppar(c.args[0]); R = ppar(payload)
+        if len(P) < 2:
+            return None
+        if irreducible(F, P):
+            return None if R == P else (pstr(P), "P is irreducible and must be returned unchanged")
+        if not (0 < len(R) - 1 < len(P) - 1) or pmod(F, P, R):
+            return ("a proper divisor", "P is reducible: a non-trivial factor (proper non-constant divisor) must be returned")
+        return None
     if b == "diff":
         exp = pdiff(F, ppar(c.args[0]))
         return None if ppar(payload) == exp else (pstr(exp), "not the formal derivative")
@@ -1244,42 +1290,11 @@ def verdict(c, payload):
     return ("?", "no oracle for " + c.op)
 
 
-def matches_known_defect(c, payload):
-    """sqrfree / CZfactor on an input with a multiplicity >= p: Yun's recurrence without a p-th-root branch reports the
-    multiplicity e as e mod p and drops the factor when p | e.  True iff the output is exactly that."""
-    F, b = c.F, c.base()
-    red = {}
-    for f, e in c.meta.get("facs", []):
-        if e % F.p:
-            red.setdefault(e % F.p, []).append(pmonic(F, f))
-    try:
-        if b == "sqrfree":
-            m = re.match(r"^(\d+)\s+(\[.*\])$", payload)
-            L, _ = parse_list(m.group(2))
-            R = max(red) if red else 1
-            if int(m.group(1)) != R or len(L) != R:
-                return False
-            for i, g in enumerate(L):
-                exp = product(F, [(f, 1) for f in red.get(i + 1, [])])
-                if pmonic(F, g) != exp:
-                    return False
-            return True
-        L, E = parse_list(payload)
-        got = sorted((tuple(pmonic(F, f)), e) for f, e in zip(L, E))
-        return got == sorted((tuple(f), r) for r, fs in red.items() for f in fs)
-    except Exception:
-        return False
-
-
 def failing_class(c, payload=""):
-    """input class used as the key of a finding: narrow, derived from the input (and, for the one recorded defect, from
-    whether the output is exactly the recorded wrong answer)"""
+    """input class used as the key of a finding: narrow, derived from the input"""
     b = c.base()
     if b in ("sqrfree", "cz"):
-        k = c.klass.split(";")[0]
-        if k == "multiplicity>=char" and not matches_known_defect(c, payload):
-            return "multiplicity>=char, output differs from the recorded defect"
-        return k
+        return c.klass.split(";")[0]
     if b in ("irr", "irr2"):
         P = ppar(c.args[0])
         if len(P) <= 1:
@@ -1302,7 +1317,7 @@ def main(tier, replay=None):
         "extraction: ExtrOcamlBasic only; Z/positive/nat kept as extracted inductives; OCaml 4.13.1; zarith only for text I/O in harness/zio.ml",
         "the Gallina model (coq/C09/Model.v) is hand-written after the C++ control structure; the tie is the correspondence run on every case of a prime field (same stream of generator outputs on both sides)",
         "harness/c09_factor.C (Replay generator substituted for GivRandom through the RandomIterator template parameter), checks/C09.py (generators, python GF(q) arithmetic, divisor search, Rabin test, order by definition)",
-        "g++ -fpermissive for the implementation side as long as Poly1FactorDom::order calls the inherited mod() unqualified (read from the source on every run; frag/C09.fix-5 qualifies it, then the harness is compiled as standard C++)",
+        "is_prim_root / order / give_prim_root factor q^n-1 with a local IntFactorDom<> whose generator is seeded from the clock (givrandom.h): it cannot be seeded from outside, runs on large fields are not replayable step by step; the answers do not depend on it (checked against the factorisation computed by python), the running time does: a `does not return` verdict needs the per-case CPU budget to be exceeded twice, the second time alone with 5x the budget",
         "not proved: that the X^(q^i)-X gcd test characterises irreducibility for every q and degree (finite-field structure theory); claimed only for the exhaustively swept bounds stated in the theorems",
     ]
     chk.assumptions = ["partial: theorems cover the logic (product preservation for every oracle stream, verified checkers) and bounded exhaustive sweeps; the rest is checked per run on the implementation's outputs",
@@ -1330,22 +1345,31 @@ def main(tier, replay=None):
             chk.cov["inconclusive_tooling_timeouts"].append("ocaml build of the extracted model timed out")
         else:
             chk.broke("extracted model driver does not build", l1)
-    # which bodies need -fpermissive (unqualified names of a dependent base): read from the CURRENT source on every run.  Once
-    # Poly1FactorDom::order qualifies its call (frag/C09.fix-5) the harness is compiled as standard C++.
+    # facts read from the current source (recorded).  The harness is compiled as standard C++ (fix-5 is in: reverting it breaks the
+    # build = VIOLATION).  The single-factor form `Rep& factor(Rep&, const Rep&[, MOD])` is driven when it can be instantiated.
     chk.cov["source_facts"] = source_facts()
-    flags = ["-DC09_PERMISSIVE", "-Wno-sign-compare"]
-    perm = chk.cov["source_facts"].get("order_calls_unqualified_mod", True)
-    himpl, l2 = vf.build_harness("c09_factor.C", extra_flags=(["-fpermissive"] if perm else []) + flags, timeout=2400)
-    if himpl is None and not perm and "[timeout after" not in l2:
-        perm = True
-        himpl, l2 = vf.build_harness("c09_factor.C", extra_flags=["-fpermissive"] + flags, timeout=2400)
-    chk.cov["source_facts"]["harness_compiled_with_fpermissive"] = perm
+    factor1_ok = not chk.cov["source_facts"].get("factor_single_uses_Rep_copy", True)
+    flags = ["-DC09_PERMISSIVE", "-Wno-sign-compare"] + (["-DC09_FACTOR1"] if factor1_ok else [])
+    himpl, l2 = vf.build_harness("c09_factor.C", extra_flags=flags, timeout=2400)
+    if himpl is None and factor1_ok and "[timeout after" not in l2 and "copy" in l2:
+        # the text test was wrong about the single-factor form: it still cannot be instantiated
+        factor1_ok = False
+        himpl, l2 = vf.build_harness("c09_factor.C", extra_flags=flags[:2], timeout=2400)
     if himpl is None:
         if "[timeout after" in l2:
             chk.cov["inconclusive_tooling_timeouts"].append("g++ did not finish the harness within 2400 s")
         else:
             chk.broke("implementation harness does not compile against /repo", l2)
         return chk.finish()
+    if not factor1_ok:
+        # Rep::copy does not exist for the Rep of Poly1Dom<Domain,Dense>: the member cannot be instantiated (same class as fix-5)
+        key = [k for k in vf.load_known() if k.get("property") == "C09" and k.get("site") == SITE["factor1"]]
+        if key:
+            chk.fail_input(SITE["factor1"], "does-not-compile", {"op": "factor1", "field": "-", "stream": [], "args": [], "class": "instantiation"},
+                           "an instantiable member", "W.copy( / D.copy( in givpoly1factor.inl",
+                           "Rep& factor(Rep&, const Rep&, Residu_t) uses Rep::copy, which the dense representation does not have")
+        else:
+            chk.notes.append("Poly1FactorDom::factor(Rep&,const Rep&[,MOD]) cannot be instantiated (Rep::copy): frag/C09.fix-7.diff; finding not yet registered")
     phase("build")
     # 3. fields: the extension fields need the modulus GFqDom chose
     fields = [Fp(p) for p in ([2, 3, 5, 7, 13, 101] if tier == "quick" else [2, 3, 5, 7, 11, 13, 31, 101, 65521])]
@@ -1374,8 +1398,9 @@ def main(tier, replay=None):
                 cases.append(Case(d["op"], F, d["stream"], d["args"], d.get("meta", {}), d.get("class", "")))
     phase("generate")
     wall = 900 if tier == "quick" else 3000
-    cpu = 90 if tier == "quick" else 900
-    iout, inc1 = run_isolated(himpl, cases, wall, cpu)
+    cpu = 600 if tier == "quick" else 3000          # outer limit of a whole batch (tooling); the verdict "does not return" is per case:
+    ccpu = 20 if tier == "quick" else 60            # CPU seconds for one call (typical: milliseconds), confirmed alone with 5x
+    iout, inc1 = run_isolated(himpl, cases, wall, cpu, ccpu)
     # cases that ran out of random draws get a long deterministic continuation of their stream (same on both sides); when
     # the second run does not complete (tooling time-out) the case keeps its first stream and stays inconclusive
     retry = [i for i in range(len(cases)) if iout[i].startswith("EXHAUSTED")]
@@ -1386,7 +1411,7 @@ def main(tier, replay=None):
         for i in retry:
             r2 = vf.Rng(chk.seed * 1000003 + i)
             cases[i].stream = list(cases[i].stream) + stream(r2, EXTRA_DRAWS)
-        out2, inc2 = run_isolated(himpl, [cases[i] for i in retry], wall, cpu)
+        out2, inc2 = run_isolated(himpl, [cases[i] for i in retry], wall, cpu, ccpu)
         for i, l in zip(retry, out2):
             if l.startswith(("TIMEOUT", "SKIPPED")):
                 cases[i].stream = saved[i]
@@ -1398,22 +1423,25 @@ def main(tier, replay=None):
     chk.cov["streams_continued"] = len(retry)
     phase("implementation")
     ninconclusive = 0
-    # model: prime fields only.  sqrfree / CZfactor: Model.sqrfree follows the code without p-th-root branch, Model2.sqrfree_rep the
-    # repaired code (frag/C09.fix-6); which one is tied to the implementation is decided from the current source
+    # model: prime fields only.  sqrfree / CZfactor are tied to Model2 (the body in the tree since ffdc6c6), unconditionally
     mop = dict(MODEL_OP)
-    if chk.cov["source_facts"].get("sqrfree_has_pth_root_branch"):
-        for k in mop:
-            mop[k] = {"sqrfree": "sqrfree2", "cz": "cz2"}.get(mop[k], mop[k])
-    chk.cov["model_of_sqrfree"] = "Model2.sqrfree_rep (repaired)" if mop["sqrfree"] == "sqrfree2" else "Model.sqrfree (no p-th-root branch)"
-    midx = [i for i, c in enumerate(cases) if type(c.F) is Fp and c.op in MODEL_OP and not c.meta.get("nomodel")
-            and not iout[i].startswith(("TIMEOUT", "SKIPPED"))]
+    for k in mop:
+        mop[k] = {"sqrfree": "sqrfree2", "cz": "cz2"}.get(mop[k], mop[k])
+    chk.cov["model_of_sqrfree"] = "Model2.sqrfree_rep"
+
+    def mline(c):
+        if c.meta.get("L"):        # boundary fields: the factor list of q^n - 1 is an input of the model (Model3.is_prim_root_L / order_L)
+            return "%s %s - %s %s" % ({"isproot": "isprootL", "order": "orderL"}[c.base()], c.F.name, " ".join(c.args), ",".join(str(l) for l in c.meta["L"]))
+        return c.line(mop[c.op])
+    midx = [i for i, c in enumerate(cases) if type(c.F) is Fp and c.op in MODEL_OP and (not c.meta.get("nomodel") or c.meta.get("L"))
+            and not iout[i].startswith(("TIMEOUT", "SKIPPED", "UNKNOWN-OP"))]
     big = [i for i in midx if cases[i].F.p > 1000]       # the extracted model runs on unary/binary inductives: sample the big field
     if len(big) > 400:
         drop = set(big[400:])
         midx = [i for i in midx if i not in drop]
     mout = {}
     if drv:
-        rc, lines, merr = run_parallel(drv, [cases[i].line(mop[cases[i].op]) for i in midx], timeout=3000)
+        rc, lines, merr = run_parallel(drv, [mline(cases[i]) for i in midx], timeout=3000)
         if rc == 124:
             chk.cov["inconclusive_tooling_timeouts"].append("the extracted model did not answer %d cases within 3000 s" % len(midx))
         elif rc != 0 or len(lines) != len(midx):
@@ -1422,7 +1450,7 @@ def main(tier, replay=None):
             mout = dict(zip(midx, lines))
     phase("model")
     # 4. comparison
-    ncorr = 0
+    ncorr = noracle = nnotinst = 0
     dist = {}
     verified_queue = []          # (case index, kind, text line for the verified checker, expectation)
     for i, c in enumerate(cases):
@@ -1436,6 +1464,9 @@ def main(tier, replay=None):
         if payload.startswith(("SKIPPED", "TIMEOUT")):
             ninconclusive += 1
             continue
+        if payload.startswith("UNKNOWN-OP") and b == "factor1" and not factor1_ok:
+            nnotinst += 1
+            continue
         v = verdict(c, payload) if not payload.startswith(("CRASH", "HANG")) else ("a result", "the call crashed or does not return: " + payload)
         if v is not None and v[0] == "INCONCLUSIVE":
             mp = parse_out(mout[i])[0] if i in mout else "EXHAUSTED"
@@ -1446,6 +1477,7 @@ def main(tier, replay=None):
             else:
                 ninconclusive += 1
             continue
+        noracle += 1
         if v is not None and v[0] == "ORACLE":
             chk.broke("python specification inconsistent on %s: %s" % (c.line(), v[1]))
             continue
@@ -1510,6 +1542,20 @@ def main(tier, replay=None):
                        "larger ones; factorisation/sqrfree: products built from known irreducibles (equal degrees, multiplicities < p, = p, p+1, degree divisible by p, "
                        "non-monic) and random; orders: every element of small fields; requests: every degree 1..7. non-trivial = not a degree<=1 irreducibility query "
                        "and the random stream was not exhausted; distinct = (call form, field, arguments, stream prefix)")
+    # floors on what was actually compared: a run that falls below them (tooling problems) says so; inconclusive is never a pass
+    floors = {"quick": {"oracle_comparisons": 15000, "correspondence_comparisons": 7000, "verified_checker_decisions": 2500},
+              "thorough": {"oracle_comparisons": 100000, "correspondence_comparisons": 60000, "verified_checker_decisions": 20000}}[tier if tier in ("quick", "thorough") else "quick"]
+    done = {"oracle_comparisons": noracle, "correspondence_comparisons": ncorr, "verified_checker_decisions": nver}
+    missed = [] if replay else ["%s: %d < floor %d" % (k, done[k], floors[k]) for k in sorted(floors) if done[k] < floors[k]]
+    if chk.cov["discharged"] < chk.cov["obligations"]:
+        missed.append("theorems re-checked: %d < %d" % (chk.cov["discharged"], chk.cov["obligations"]))
+    chk.cov["comparisons"] = done
+    chk.cov["floors"] = floors
+    chk.cov["floor_missed"] = missed
+    chk.cov["inconclusive"] = {"cases_timeout_or_skipped_or_stream_exhausted": ninconclusive, "tooling_timeouts": list(chk.cov["inconclusive_tooling_timeouts"]),
+                               "slow_cases_confirmed_alone": SLOW_CASES[:20], "factor1_not_instantiable_cases": nnotinst}
+    if missed or chk.cov["inconclusive_tooling_timeouts"]:
+        print("INCONCLUSIVE property=C09 (not a pass of the affected probes): " + "; ".join(missed + chk.cov["inconclusive_tooling_timeouts"]))
     chk.cov["traces_validated_against_impl"] = ncorr
     chk.cov["inconclusive_stream_exhausted"] = ninconclusive
     chk.cov["verified_checker_decisions"] = nver
@@ -1532,15 +1578,20 @@ def main(tier, replay=None):
     return chk.finish()
 
 
-def run_proc(binary, text, wall, cpu):
-    """one process with a CPU-time limit (load independent) and a generous wall-clock limit.
-    returns (status, lines): status 'ok', 'cpu' (killed by the CPU limit: a loop), 'wall' (tooling time-out), 'rc=<n>' (died)"""
+def run_proc(binary, text, wall, cpu, case_cpu=0):
+    """one process with a per-case CPU-time watchdog inside the harness (C09_CASE_CPU, ITIMER_PROF), an outer CPU-time limit for the
+    whole batch (RLIMIT_CPU) and a generous wall-clock limit.  CPU time does not depend on the load of the machine.
+    returns (status, lines): 'ok'; 'casecpu' (the case in progress exceeded its own CPU budget); 'cpu' (the batch as a whole exceeded
+    the outer CPU limit) and 'wall' (wall-clock) = time-outs of the tooling; 'rc=<n>' (the process died)"""
     import subprocess, resource, signal
 
     def lim():
         resource.setrlimit(resource.RLIMIT_CPU, (cpu, cpu + 5))
+    env = dict(os.environ)
+    if case_cpu:
+        env["C09_CASE_CPU"] = str(case_cpu)
     p = subprocess.Popen([binary], stdin=subprocess.PIPE, stdout=subprocess.PIPE, stderr=subprocess.DEVNULL,
-                         universal_newlines=True, preexec_fn=lim)
+                         universal_newlines=True, preexec_fn=lim, env=env)
     try:
         o, _ = p.communicate(text, timeout=wall)
     except subprocess.TimeoutExpired as ex:
@@ -1555,30 +1606,35 @@ def run_proc(binary, text, wall, cpu):
     rc = p.returncode
     if rc == 0:
         return "ok", o.splitlines()
+    if rc == 99 and "HANG-CPU" in o[-200:]:
+        return "casecpu", o.splitlines()
     if rc in (-signal.SIGXCPU, -signal.SIGKILL):
         return "cpu", o.splitlines()
     return "rc=%s" % rc, o.splitlines()
 
 
-def run_isolated(himpl, cases, wall=900, cpu=90):
-    """run the cases in one process.  When the process dies (a crash inside
-    the library) or is stopped by its CPU-time limit (a loop that draws no random value; CPU time does not depend on the load
-    of the machine), CRASH / HANG is recorded for the case it stopped on and the rest is run in a new process (at most 4 such
-    restarts, then the rest is SKIPPED).  A wall-clock time-out is a time-out of the tooling: the unanswered cases are run once
-    more, then recorded as TIMEOUT = inconclusive.  Returns (output lines, number of inconclusive cases)."""
+SLOW_CASES = []
+
+
+def run_isolated(himpl, cases, wall=900, cpu=600, case_cpu=20):
+    """run the cases in one process.  A case that does not return within `case_cpu` seconds of CPU time (watchdog inside the harness) is
+    run once more ALONE with five times that budget (is_prim_root / order factor q^n-1 with a time-seeded Pollard/Lenstra: their running
+    time is not a function of the input alone); only if it again does not return it is recorded as HANG = a failing input "does not
+    return".  A crash is recorded as CRASH for the case it stopped on.  After 3 hangs/crashes the rest is SKIPPED.  Wall-clock time-outs
+    and the outer batch CPU limit are time-outs of the tooling: unanswered cases are run once more, then recorded as TIMEOUT.
+    SKIPPED and TIMEOUT are inconclusive, never a pass and never a failing input.  Returns (output lines, number of TIMEOUT cases)."""
     out = [None] * len(cases)
-    ninc = 0
-    rest = [i for i in range(len(cases)) if out[i] is None]
+    rest = list(range(len(cases)))
     stops = walls = 0
+    ok_line = re.compile(r"#\d+\s*$")
     while rest:
-        # once a loop or crash has been seen the verdict is settled: the remaining cases get a smaller CPU budget
-        st, lines = run_proc(himpl, "".join(cases[i].line() + "\n" for i in rest), wall, cpu if stops == 0 else max(10, cpu // 4))
-        lines = [l for l in lines if re.search(r"#\d+\s*$", l)]          # drop a partial last line
+        st, lines = run_proc(himpl, "".join(cases[i].line() + "\n" for i in rest), wall, cpu, case_cpu)
+        lines = [l for l in lines if ok_line.search(l)]          # drop a partial last line / the HANG-CPU marker
         for i, l in zip(rest, lines):
             out[i] = l
         if len(lines) >= len(rest):
             break
-        if st == "wall":
+        if st in ("wall", "cpu"):
             walls += 1
             rest = rest[len(lines):]
             if walls >= 2:
@@ -1586,15 +1642,29 @@ def run_isolated(himpl, cases, wall=900, cpu=90):
                     out[i] = "TIMEOUT"
                 break
             continue
-        out[rest[len(lines)]] = "HANG (CPU-time limit of %d s)" % (cpu if stops == 0 else max(10, cpu // 4)) if st == "cpu" else "CRASH %s" % st
+        k = rest[len(lines)]
+        if st == "casecpu":
+            st2, l2 = run_proc(himpl, cases[k].line() + "\n", wall, 5 * case_cpu + 30, 5 * case_cpu)
+            l2 = [l for l in l2 if ok_line.search(l)]
+            if l2:
+                out[k] = l2[0]
+                SLOW_CASES.append("%s %s %s: more than %d s CPU in the batch, returned when run alone" % (cases[k].op, cases[k].F.name, " ".join(cases[k].args)[:80], case_cpu))
+                rest = rest[len(lines) + 1:]
+                continue
+            if st2 != "casecpu":
+                out[k] = "TIMEOUT"
+                rest = rest[len(lines) + 1:]
+                continue
+            out[k] = "HANG (no return within %d s of CPU time; reproduced when run alone with %d s)" % (case_cpu, 5 * case_cpu)
+        else:
+            out[k] = "CRASH %s" % st
         rest = rest[len(lines) + 1:]
         stops += 1
         if stops >= 3:
             for i in rest:
                 out[i] = "SKIPPED"
             break
-    ninc = sum(1 for l in out if l == "TIMEOUT")
-    return out, ninc
+    return out, sum(1 for l in out if l == "TIMEOUT")
 
 
 def field_of_name(name):
